@@ -78,6 +78,8 @@ def gen_program(rng, kind, ntx=None, small=False):
     steps = []
     live = {}            # oid -> True (exists) / False (deleted)
     undoable = []        # step indices
+    step_oids = {}       # step index -> oids it writes
+    base_oids = set()    # demo: oids with a revision in the base
     canundo = kind in ('file', 'fileblob', 'demo-mf', 'demo-ff')
     candel = kind in ('file', 'fileblob')
     split = rng.randrange(1, ntx) if kind.startswith('demo') else 0
@@ -89,7 +91,11 @@ def gen_program(rng, kind, ntx=None, small=False):
         in_changes = kind.startswith('demo') and i >= split
         for _ in range(nops):
             r = rng.random()
-            cands = [j for j in undoable if (not kind.startswith('demo')) or j >= split]
+            # DemoStorage: only transactions of the changes layer whose objects have no revision in
+            # the base (undo below the changes layer is the open finding C17:copy-demo-undo-below-changes,
+            # exercised by its own corpus probe)
+            cands = [j for j in undoable if (not kind.startswith('demo')) or
+                     (j >= split and not (step_oids.get(j, set()) & base_oids))]
             if canundo and cands and r < 0.3 and (in_changes or not kind.startswith('demo')) \
                     and not ops:
                 ops.append(['u', rng.choice(cands[-3:])])
@@ -116,6 +122,12 @@ def gen_program(rng, kind, ntx=None, small=False):
             n += 1
             ops.append(['s', oids[0], mkdata(oids[0], n, rng).hex()])
             live[oids[0]] = True
+        so = set()
+        for op in ops:
+            so |= step_oids.get(op[1], set()) if op[0] == 'u' else {op[1]}
+        step_oids[len(steps)] = so
+        if kind.startswith('demo') and i < split:
+            base_oids |= so
         steps.append(dict(t=tid, u=rng.choice([b'', b'u', b'user.name', b'\xc3\xa9']).hex(),
                           d=rng.choice([b'', b'd', b'a description. with dots.', b'x' * 30]).hex(),
                           e=rng.choice([None, None, 1, 'ext.']), ops=ops))
@@ -720,6 +732,13 @@ def judge_recover(raw, txns, oview, dmg, obs):
         j += 1
     if bad is None:
         return 'ok', None, None
+    # a transaction of the input with a strict prefix of its records: without -p a transaction with a
+    # bad record must be skipped, whatever the rest of the image looks like
+    for o in oview[npre:]:
+        if o[:5] == bad[:5] and len(bad[5]) < len(o[5]) and o[5][:len(bad[5])] == bad[5]:
+            return 'violation', 'C17:recover-partial-transaction', \
+                'output transaction %s has %d of the %d records of the input transaction' % (
+                    bad[0], len(bad[5]), len(o[5]))
     # hypothesis of the theorem (NoFalseResync / ClosedBack), evaluated on the damaged image:
     intact_starts = {t['pos'] for t in txns if t['pos'] >= de}
     dstart = txns[npre]['pos'] if npre < len(txns) else len(raw)
